@@ -51,6 +51,8 @@ def apply_unified(diff_text, files):
             seen_old = 0
             while i < len(lines) and not lines[i].startswith("@@") and not lines[i].startswith("--- "):
                 l = lines[i]
+                if l == "" and seen_old == alen:
+                    break     # blank separator left by a file whose diff is empty (full_diff += "" + newline)
                 tag, body = l[:1], l[1:]
                 if tag == " ":
                     if pos >= len(old) or old[pos] != body:
